@@ -60,6 +60,14 @@ def P_sameBody (cfg : Cfg) (tr : Log) : Prop :=
     i ∈ ps → tr[b]? = some (.msg (.bsnd ps j)) → b < c → tr[c]? = some (.msg (.beg j)) →
     FinBefore tr i c
 
+/-- "Messages from one peer are dispatched to handlers in the order they were sent", for the members of one
+transport unit and whatever their kinds: if `i` stands before `j` in the body that carried both (position `b`),
+then when `j` enters the receiver's handler queue (position `c`) — the queue the single dispatcher drains in
+order — `i` has entered it before. -/
+def P_bodyDispatch (tr : Log) : Prop :=
+  ∀ (i j : Nat) (ps : List Nat) (b c : Nat), i ∈ ps → tr[b]? = some (FEv.msg (.bsnd ps j)) → b < c → tr[c]? = some (FEv.enq j) →
+    ∃ d, d < c ∧ tr[d]? = some (FEv.enq i)
+
 /-- "Once a notifying method has returned, any notification or call the same goroutine sends afterwards is
 observed by the peer after it", for a notifying method that addresses several sessions: if `g` returned
 (position `a`) and `i` is its copy for some peer whose send did not fail, then whatever is sent to that peer
@@ -84,6 +92,7 @@ def P_sentIsHandled (recs : List Rec) : Prop := ∀ r, r ∈ recs → r.acked = 
 def P_log (cfg : Cfg) : Clause → Log → Prop
   | .laterSend _ _ => P_laterSend cfg
   | .sameBody _ _ => P_sameBody cfg
+  | .bodyDispatch _ _ => fun tr => P_bodyDispatch tr
   | .fanout _ _ _ => P_fanout cfg
   | _ => fun _ => True
 
@@ -341,6 +350,18 @@ theorem minv_step {cfg : Cfg} {tr : Log} {n : Nat} {m : FMon} {e : FEv} (hm : MI
           refine ⟨h1, h2, h3, b, n, hbn, h4, ?_, ?_⟩
           · rw [hp.1]; exact he
           · intro d hd; exact hm.finished p.1 (by simpa using hp.2) d hd
+  | enq j =>
+    have keep : ∀ m' : FMon, m'.returned = m.returned → m'.failed = m.failed → m'.finished = m.finished →
+        m'.sentAfter = m.sentAfter → m'.bad = m.bad → MInv cfg tr (n + 1) m' := by
+      intro m' h1 h2 h3 h4 h5
+      exact ⟨by rw [h1]; exact kret, by rw [h2]; exact kfailed (by intro c x; cases x),
+        by rw [h3]; exact kfin (by intro i x; cases x), by rw [h4]; exact kowes, by rw [h5]; exact hm.bad⟩
+    simp only [FMon.step]
+    split
+    · exact keep _ rfl rfl rfl rfl rfl
+    · split
+      · exact keep _ rfl rfl rfl rfl rfl
+      · exact keep _ rfl rfl rfl rfl rfl
   | fcall g =>
     refine ⟨kret, kfailed (by intro c x; cases x), kfin (by intro i x; cases x), ?_, hm.bad⟩
     intro x hx
@@ -383,14 +404,31 @@ theorem minv_final (cfg : Cfg) (tr : Log) : MInv cfg tr tr.length (fmonitor cfg 
   have := minv_foldl (cfg := cfg) (tr := tr) tr 0 {} (by simp) (minv_init cfg tr)
   simpa [fmonitor] using this
 
-theorem bad_of_clause {cfg : Cfg} {tr : Log} {cl : Clause} (h : orderClause cfg tr = some cl) :
+theorem bad_of_clause {cfg : Cfg} {tr : Log} {cl : Clause} (h : orderClause cfg tr = some cl)
+    (hne : ∀ i j, cl ≠ .bodyDispatch i j) :
     ∃ x, (fmonitor cfg tr).bad = some x ∧ clauseOf x = cl := by
-  simp only [orderClause, Option.map_eq_some_iff] at h
-  exact h
+  simp only [orderClause] at h
+  split at h
+  · rename_i x hx
+    exact ⟨x, hx, Option.some.inj h⟩
+  · simp only [Option.map_eq_some_iff] at h
+    obtain ⟨p, _, rfl⟩ := h
+    exact absurd rfl (hne p.1 p.2)
+
+theorem badEnq_of_clause {cfg : Cfg} {tr : Log} {i j : Nat} (h : orderClause cfg tr = some (.bodyDispatch i j)) :
+    (fmonitor cfg tr).badEnq = some (i, j) := by
+  simp only [orderClause] at h
+  split at h
+  · rename_i x hx
+    obtain ⟨a, b, w⟩ := x
+    cases w <;> simp [clauseOf] at h
+  · simp only [Option.map_eq_some_iff, Clause.bodyDispatch.injEq] at h
+    obtain ⟨p, hp, h1, h2⟩ := h
+    rw [hp]; cases p; simp_all
 
 theorem sound_laterSend {cfg : Cfg} {tr : Log} {i j : Nat} (h : orderClause cfg tr = some (.laterSend i j)) :
     ¬ P_laterSend cfg tr := by
-  obtain ⟨⟨i', j', w⟩, hb, hc⟩ := bad_of_clause h
+  obtain ⟨⟨i', j', w⟩, hb, hc⟩ := bad_of_clause h (by intro a b x; cases x)
   match w, hb, hc with
   | .body, _, hc => simp [clauseOf] at hc
   | .fan g, _, hc => simp [clauseOf] at hc
@@ -404,7 +442,7 @@ theorem sound_laterSend {cfg : Cfg} {tr : Log} {i j : Nat} (h : orderClause cfg 
 
 theorem sound_sameBody {cfg : Cfg} {tr : Log} {i j : Nat} (h : orderClause cfg tr = some (.sameBody i j)) :
     ¬ P_sameBody cfg tr := by
-  obtain ⟨⟨i', j', w⟩, hb, hc⟩ := bad_of_clause h
+  obtain ⟨⟨i', j', w⟩, hb, hc⟩ := bad_of_clause h (by intro a b x; cases x)
   match w, hb, hc with
   | .later, _, hc => simp [clauseOf] at hc
   | .fan g, _, hc => simp [clauseOf] at hc
@@ -418,7 +456,7 @@ theorem sound_sameBody {cfg : Cfg} {tr : Log} {i j : Nat} (h : orderClause cfg t
 
 theorem sound_fanout {cfg : Cfg} {tr : Log} {g i j : Nat} (h : orderClause cfg tr = some (.fanout g i j)) :
     ¬ P_fanout cfg tr := by
-  obtain ⟨⟨i', j', w⟩, hb, hc⟩ := bad_of_clause h
+  obtain ⟨⟨i', j', w⟩, hb, hc⟩ := bad_of_clause h (by intro a b x; cases x)
   match w, hb, hc with
   | .later, _, hc => simp [clauseOf] at hc
   | .body, _, hc => simp [clauseOf] at hc
@@ -430,22 +468,138 @@ theorem sound_fanout {cfg : Cfg} {tr : Log} {g i j : Nat} (h : orderClause cfg t
     obtain ⟨d, hd, hfin⟩ := hP g' i' j' a b c h1 h2 h3 hfr hab hs hbc hbeg
     exact hnofin d hd hfin
 
+/-! ### the order of entering the handler queue -/
+
+/-- What the monitor's state says about the `enq` / `bsnd` events among the first `n` events. -/
+structure QInv (tr : Log) (n : Nat) (m : FMon) : Prop where
+  enqd : ∀ i, i ∉ m.enqd → ∀ d, d < n → tr[d]? ≠ some (FEv.enq i)
+  bodies : ∀ p, p ∈ m.bodies → ∃ (ps : List Nat) (b : Nat), b < n ∧ p.1 ∈ ps ∧ tr[b]? = some (FEv.msg (.bsnd ps p.2))
+  bad : ∀ p, m.badEnq = some p → ∃ (ps : List Nat) (b c : Nat), b < c ∧ p.1 ∈ ps ∧ tr[b]? = some (FEv.msg (.bsnd ps p.2)) ∧
+    tr[c]? = some (FEv.enq p.2) ∧ ∀ d, d < c → tr[d]? ≠ some (FEv.enq p.1)
+
+theorem qinv_init (tr : Log) : QInv tr 0 {} := by
+  constructor <;> simp
+
+theorem qinv_step {cfg : Cfg} {tr : Log} {n : Nat} {m : FMon} {e : FEv} (hm : QInv tr n m)
+    (he : tr[n]? = some e) : QInv tr (n + 1) (FMon.step cfg m e) := by
+  have kenq : (∀ i, e ≠ .enq i) → ∀ i, i ∉ m.enqd → ∀ d, d < n + 1 → tr[d]? ≠ some (FEv.enq i) := by
+    intro hne i hi d hd
+    by_cases hdn : d = n
+    · subst hdn; rw [he]; intro x; exact hne i (Option.some.inj x)
+    · exact hm.enqd i hi d (by omega)
+  have kbod : ∀ p, p ∈ m.bodies → ∃ (ps : List Nat) (b : Nat), b < n + 1 ∧ p.1 ∈ ps ∧ tr[b]? = some (FEv.msg (.bsnd ps p.2)) := by
+    intro p hp
+    obtain ⟨ps, b, hb, h1, h2⟩ := hm.bodies p hp
+    exact ⟨ps, b, by omega, h1, h2⟩
+  -- a step that touches none of the three components
+  have keep : (∀ i, e ≠ .enq i) → ∀ m' : FMon, m'.enqd = m.enqd → m'.bodies = m.bodies → m'.badEnq = m.badEnq →
+      QInv tr (n + 1) m' := by
+    intro hne m' h1 h2 h3
+    exact ⟨by rw [h1]; exact kenq hne, by rw [h2]; exact kbod, by rw [h3]; exact hm.bad⟩
+  cases e with
+  | msg ev =>
+    cases ev with
+    | snd j => exact keep (by intro i x; cases x) _ rfl rfl rfl
+    | ret i => exact keep (by intro i x; cases x) _ rfl rfl rfl
+    | fin i => exact keep (by intro i x; cases x) _ rfl rfl rfl
+    | beg j =>
+      simp only [FMon.step]
+      split
+      · exact keep (by intro i x; cases x) _ rfl rfl rfl
+      · split
+        · exact keep (by intro i x; cases x) _ rfl rfl rfl
+        · exact keep (by intro i x; cases x) _ rfl rfl rfl
+    | bsnd ps j =>
+      refine ⟨kenq (by intro i x; cases x), ?_, hm.bad⟩
+      intro p hp
+      simp only [FMon.step, List.mem_append, List.mem_map] at hp
+      rcases hp with hp | ⟨k, hk, rfl⟩
+      · exact kbod p hp
+      · exact ⟨ps, n, Nat.lt_succ_self n, hk, he⟩
+  | fcall g => exact keep (by intro i x; cases x) _ rfl rfl rfl
+  | ferr c => exact keep (by intro i x; cases x) _ rfl rfl rfl
+  | fret g => exact keep (by intro i x; cases x) _ rfl rfl rfl
+  | enq j =>
+    have kenq' : ∀ i, i ∉ j :: m.enqd → ∀ d, d < n + 1 → tr[d]? ≠ some (FEv.enq i) := by
+      intro i hi d hd
+      simp only [List.mem_cons, not_or] at hi
+      by_cases hdn : d = n
+      · subst hdn; rw [he]; intro x; cases x; exact hi.1 rfl
+      · exact hm.enqd i hi.2 d (by omega)
+    simp only [FMon.step]
+    cases hb : m.badEnq with
+    | some y =>
+      simp only []
+      exact ⟨kenq', kbod, by intro p hp; exact hm.bad p (by simpa [hb] using hp)⟩
+    | none =>
+      simp only []
+      cases hf : m.bodies.find? (fun p => p.2 == j && !m.enqd.contains p.1) with
+      | none =>
+        simp only []
+        exact ⟨kenq', kbod, by intro p hp; simp [hb] at hp⟩
+      | some p =>
+        simp only []
+        refine ⟨kenq', kbod, ?_⟩
+        intro q hq
+        simp only [Option.some.injEq] at hq
+        subst hq
+        have hp := List.find?_some hf
+        have hmem := List.mem_of_find?_eq_some hf
+        simp only [Bool.and_eq_true, beq_iff_eq, Bool.not_eq_true', List.contains_eq_mem, decide_eq_false_iff_not] at hp
+        obtain ⟨ps, b, hbn, h1, h2⟩ := hm.bodies p hmem
+        refine ⟨ps, b, n, hbn, h1, h2, ?_, ?_⟩
+        · rw [hp.1]; exact he
+        · intro d hd; exact hm.enqd p.1 (by simpa using hp.2) d hd
+
+theorem qinv_foldl {cfg : Cfg} {tr : Log} (l : List FEv) (n : Nat) (m : FMon) (hl : tr.drop n = l)
+    (hm : QInv tr n m) : QInv tr (n + l.length) (l.foldl (FMon.step cfg) m) := by
+  induction l generalizing n m with
+  | nil => simpa using hm
+  | cons e l ih =>
+    have he : tr[n]? = some e := by
+      have := congrArg List.head? hl
+      simpa [List.head?_drop] using this
+    have hl' : tr.drop (n + 1) = l := by
+      have := congrArg List.tail hl
+      simpa [List.tail_drop] using this
+    have := ih (n + 1) (FMon.step cfg m e) hl' (qinv_step hm he)
+    simpa [Nat.add_assoc, Nat.add_comm 1] using this
+
+theorem qinv_final (cfg : Cfg) (tr : Log) : QInv tr tr.length (fmonitor cfg tr) := by
+  have := qinv_foldl (cfg := cfg) (tr := tr) tr 0 {} (by simp) (qinv_init tr)
+  simpa [fmonitor] using this
+
+theorem sound_bodyDispatch {cfg : Cfg} {tr : Log} {i j : Nat} (h : orderClause cfg tr = some (.bodyDispatch i j)) :
+    ¬ P_bodyDispatch tr := by
+  obtain ⟨ps, b, c, hbc, hps, hb, hc, hno⟩ := (qinv_final cfg tr).bad _ (badEnq_of_clause h)
+  intro hP
+  obtain ⟨d, hd, he⟩ := hP i j ps b c hps hb hbc hc
+  exact hno d hd he
+
 /-- `orderClause` reports only ordering clauses. -/
 theorem orderClause_kinds {cfg : Cfg} {tr : Log} {cl : Clause} (h : orderClause cfg tr = some cl) :
-    (∃ i j, cl = .laterSend i j) ∨ (∃ i j, cl = .sameBody i j) ∨ ∃ g i j, cl = .fanout g i j := by
-  obtain ⟨⟨i, j, w⟩, _, rfl⟩ := bad_of_clause h
-  cases w
-  · left; exact ⟨i, j, rfl⟩
-  · right; left; exact ⟨i, j, rfl⟩
-  · right; right; exact ⟨_, i, j, rfl⟩
+    (∃ i j, cl = .laterSend i j) ∨ (∃ i j, cl = .sameBody i j) ∨ (∃ g i j, cl = .fanout g i j) ∨ ∃ i j, cl = .bodyDispatch i j := by
+  simp only [orderClause] at h
+  split at h
+  · rename_i x hx
+    obtain ⟨i, j, w⟩ := x
+    cases h
+    cases w
+    · left; exact ⟨i, j, rfl⟩
+    · right; left; exact ⟨i, j, rfl⟩
+    · right; right; left; exact ⟨_, i, j, rfl⟩
+  · simp only [Option.map_eq_some_iff] at h
+    obtain ⟨p, _, rfl⟩ := h
+    right; right; right; exact ⟨_, _, rfl⟩
 
 /-- Whenever the monitor reports an ordering clause on a log, the property clause it stands for — a
 statement about the observed log alone — fails on that log. -/
 theorem monitor_sound {cfg : Cfg} {tr : Log} {cl : Clause} (h : orderClause cfg tr = some cl) : ¬ P_log cfg cl tr := by
-  rcases orderClause_kinds h with ⟨i, j, rfl⟩ | ⟨i, j, rfl⟩ | ⟨g, i, j, rfl⟩
+  rcases orderClause_kinds h with ⟨i, j, rfl⟩ | ⟨i, j, rfl⟩ | ⟨g, i, j, rfl⟩ | ⟨i, j, rfl⟩
   · exact sound_laterSend h
   · exact sound_sameBody h
   · exact sound_fanout h
+  · exact sound_bodyDispatch h
 
 /-! ## the predicates are satisfiable on logs that exercise them, and fail on the logs of a broken order -/
 
